@@ -271,6 +271,10 @@ def ggswEncryptSkT (tmp0 : Col) (bits b n size kxe rank dnum dsize : Nat) (pt : 
   | none => none
   | some ds => standardCells bits b n size kxe rank sk ds xa es
 
+/-- **`decompress_gglwe` / `decompress_ggsw`**: `decompress_glwe` on every stored cell -/
+def decompressCells (b n rank : Nat) (expand : List Nat → List Nat) (cells : List (Nat × CellC)) : Option (List (Nat × List Col)) :=
+  cells.mapM (fun c => (decompressCell b n rank expand c.2).map (fun cols => (c.1, cols)))
+
 /-- the columns stored at index `j` (`at(row, col)` with `j = row·cols_in + col`) -/
 def cellCols (cells : List (Nat × List Col)) (j : Nat) : List Col :=
   ((cells.find? (fun c => c.1 == j)).map (·.2)).getD []
